@@ -31,7 +31,8 @@ CONSTANTS NW,          \* threads_max
           Timeout,     \* BOOLEAN: timeout > 0
           FailFast,    \* BOOLEAN
           Spurious,    \* BOOLEAN: condition waits may return without a signal
-          MemT,        \* memlimit_threading (abstract units)
+          MemT,        \* memlimit_threading
+          OutOvh,      \* sizeof(lzma_outbuf): memory of an output buffer = uncompressed size + OutOvh
           Gives,       \* set of input amounts the application may add per call (model checking)
           Spaces,      \* set of output space grants per call
           Copies,      \* the file is this many identical Streams ...
@@ -172,8 +173,8 @@ Drain(q, rp, sp, del, en) ==
                       IN Drain(q3, 0, sp - n, del + n, en2)
                  ELSE [q |-> Tail(q), rp |-> 0, sp |-> sp - n, del |-> del + n, ret |-> h.ret, en |-> en]
 
-OutqMem(q) == LET S[i \in 0..Len(q)] == IF i = 0 THEN 0 ELSE S[i-1] + GB(q[i].b).outsz + 1 IN S[Len(q)]
-NextBlockMem == IF m.blk <= (m.copy + 1) * NB THEN GB(m.blk).mem + GB(m.blk).outsz + 1 ELSE 0
+OutqMem(q) == LET S[i \in 0..Len(q)] == IF i = 0 THEN 0 ELSE S[i-1] + GB(q[i].b).outsz + OutOvh IN S[Len(q)]
+NextBlockMem == IF m.blk <= (m.copy + 1) * NB THEN GB(m.blk).mem + GB(m.blk).outsz + OutOvh ELSE 0
 
 RWBody ==
     /\ m.pc = "rw"
@@ -305,7 +306,7 @@ RunOther ==
                           THEN [m1 EXCEPT !.pos = m.pos + n, !.rwRet = "DATA_ERROR", !.pc = "stop", !.loopI = 0]
                           ELSE StartRW([m1 EXCEPT !.pos = m.pos + n], "BLKHDR", FALSE, m.waitingAllowed)
                       ELSE IF B.hdr = "bad" THEN [m1 EXCEPT !.pos = 0, !.pendingErr = "HDRERR", !.seq = "ERROR"]
-                      ELSE IF B.hdr = "direct" \/ B.mem + B.outsz + 1 > MemT THEN [m1 EXCEPT !.pos = 0, !.seq = "DIRECTINIT"]
+                      ELSE IF B.hdr = "direct" \/ B.mem + B.outsz + OutOvh > MemT THEN [m1 EXCEPT !.pos = 0, !.seq = "DIRECTINIT"]
                       ELSE [m1 EXCEPT !.pos = 0, !.seq = "THRINIT"]
          [] m.seq = "THRINIT" -> StartRW(m, "THRINIT", TRUE, TRUE)
          [] m.seq = "THRRUN" ->
